@@ -374,3 +374,50 @@ pub fn bytes_eq(a: &[u8], b: &[u8]) -> bool {
     }
     true
 }
+
+// ---------------------------------------------------------------------------------------
+// A free-standing stream (no connection task): used by the MuxStream and bridge harnesses
+// ---------------------------------------------------------------------------------------
+use crate::loom::{Arc, AtomicBool, AtomicU32, AtomicWaker};
+use crate::EstablishedStreamData;
+pub const FLOW: u32 = 0x0102_0304;
+
+/// The connection task's and the wire's ends of one stream.
+pub struct Ends {
+    pub inbound_tx: Option<mpsc::Sender<Bytes>>,
+    pub out_rx: mpsc::UnboundedReceiver<Message>,
+    pub dropped_rx: mpsc::UnboundedReceiver<u32>,
+    pub data: EstablishedStreamData,
+}
+/// A stream in an arbitrary bounded state: `credit` units of send credit, inbound queue of
+/// capacity `rwnd`, acknowledgement threshold `threshold`, `since` frames consumed since the
+/// last acknowledgement, `finish` = writes already shut.
+pub fn mk_stream(credit: u32, rwnd: usize, threshold: u32, since: u32, finish: bool) -> (MuxStream, Ends) {
+    let (inbound_tx, rx_frame_rx) = mpsc::channel(rwnd);
+    let (tx_msg_tx, out_rx) = mpsc::unbounded_channel();
+    let (dropped_flows_tx, dropped_rx) = mpsc::unbounded_channel();
+    let finish_sent = Arc::new(AtomicBool::new(finish));
+    let psh_send_remaining = Arc::new(AtomicU32::new(credit));
+    let writer_waker = Arc::new(AtomicWaker::new());
+    let data = EstablishedStreamData {
+        sender: None,
+        finish_sent: finish_sent.clone(),
+        psh_send_remaining: psh_send_remaining.clone(),
+        writer_waker: writer_waker.clone(),
+    };
+    let s = MuxStream {
+        rx_frame_rx,
+        flow_id: FLOW,
+        dest_host: Bytes::new(),
+        dest_port: 0,
+        finish_sent,
+        psh_send_remaining,
+        psh_recvd_since: since,
+        writer_waker,
+        buf: Bytes::new(),
+        tx_msg_tx,
+        dropped_flows_tx,
+        rwnd_threshold: threshold,
+    };
+    (s, Ends { inbound_tx: Some(inbound_tx), out_rx, dropped_rx, data })
+}
